@@ -9,7 +9,7 @@ NS_NAMES = ["sub", "deep", "inner", "aux_", "node", "x1", "Part", "misc"]
 TYPE_NAMES = ["Msg", "Item", "Point", "Rec", "Blob", "State", "Abc", "Cfg", "Node_1", "Zed", "Info", "Unit", "Qux"]
 FIELD_NAMES = ["a", "b", "c", "value", "x", "y", "count", "flag", "data", "name_", "_z", "F1", "item", "w", "v2"]
 CONST_NAMES = ["MAX", "MIN", "K", "LIMIT", "ZERO", "ONE", "MODE_A", "MODE_B", "C1"]
-WIDTHS = [1, 2, 3, 7, 8, 9, 15, 16, 17, 24, 31, 32, 33, 48, 63, 64]
+WIDTHS = [1, 2, 3, 4, 7, 8, 9, 12, 15, 16, 17, 24, 31, 32, 33, 48, 63, 64]
 DOC_WORDS = ["alpha", "note", "units: m/s", "see above", "x", "[0, 1]", "TODO", "the value", "a  b", "end."]
 
 
@@ -188,6 +188,8 @@ class WorkspaceGen:
             lit = "%d.0 / %d.0" % (num, den) if den != 1 else "%d.0" % num
             return ["c", t, name, lit, [num // _g(num, den), den // _g(num, den)]]
         cands = [int(lo), int(hi), 0 if lo <= 0 else int(lo), int(hi) // 2, min(int(hi), 1), max(int(lo), -1)]
+        if t[0] == "u" and t[1] == 8:
+            cands += [rng.randint(32, 126), rng.randint(32, 126), 44, 65]
         v = rng.choice(cands)
         style = rng.random()
         if t == ["u", 8, "s"] or t == ["u", 8, "t"]:
